@@ -352,6 +352,20 @@ def dfApplyIndex (v : Variant) (st : Store) (src : String) (idx : List Int) (ddf
   if ddf.isNone ∧ !allSameLength sf then throw (.valueError "There are consistent lengths in dataframe")
   frameOp st src ddf (fun f t ip => applyIndexField v f idx t ip)
 
+/-- NC09f, the code AS FOUND for `df.apply_index(df[own])` in place: the caller's index was the live Field `df[own]`, handed to
+    every column in turn and re-read by each (`field.apply_index` reads `index.data[:]`), so once the column `own` itself had
+    been rewritten every later column was re-ordered by the already permuted index. `rest` are the columns still to do,
+    `done` the rewritten ones (in order). (Repaired: the Field index is read once up front — `dfApplyIndex` with its content.) -/
+def colsInPlaceOwnAsFound (v : Variant) (own : String) : (done rest : List (String × Field)) → Except Err Frame
+  | done, [] => .ok done
+  | done, (name, f) :: rest =>
+    match (done ++ (name, f) :: rest).lookup own with
+    | some { payload := .plain idx, .. } =>
+      match applyIndexField v f idx none true with
+      | .error e => .error e
+      | .ok w => colsInPlaceOwnAsFound v own (done ++ [(name, w)]) rest
+    | _ => .error (.valueError "'index_to_apply' must be a numeric field of this dataframe")
+
 /-! ### sorting -/
 
 /-- `np.argsort(xs, kind='stable')`: positions `0..len-1` stably sorted by the value they hold -/
